@@ -336,6 +336,7 @@ worker_enable_partial_update(void *thr_ptr)
 
 	mythread_sync(thr->mutex) {
 		thr->partial_update = PARTIAL_START;
+		VERIF_VISIT(VERIF_D_MT_DEC, VERIF_MTD_PARTIAL_START);
 		mythread_cond_signal(&thr->cond);
 	}
 }
@@ -414,6 +415,7 @@ next_loop_unlocked:
 			// can safely change it here to PARTIAL_ENABLED
 			// without a mutex.
 			thr->partial_update = PARTIAL_ENABLED;
+			VERIF_VISIT(VERIF_D_MT_DEC, VERIF_MTD_PARTIAL_ENABLED);
 
 			// The main thread is reading decompressed data
 			// from thr->outbuf. Tell the main thread about
@@ -482,6 +484,9 @@ next_loop_unlocked:
 		thr->outbuf = NULL;
 
 		// If an error occurred, tell it to the main thread.
+		if (ret != LZMA_STREAM_END)
+			VERIF_VISIT(VERIF_D_MT_DEC, VERIF_MTD_THREAD_ERROR);
+
 		if (ret != LZMA_STREAM_END
 				&& thr->coder->thread_error == LZMA_OK)
 			thr->coder->thread_error = ret;
@@ -510,6 +515,9 @@ next_loop_unlocked:
 static void
 threads_end(struct lzma_stream_coder *coder, const lzma_allocator *allocator)
 {
+	if (coder->threads_initialized > 0)
+		VERIF_VISIT(VERIF_D_MT_DEC, VERIF_MTD_THREADS_END);
+
 	for (uint32_t i = 0; i < coder->threads_initialized; ++i) {
 		mythread_sync(coder->threads[i].mutex) {
 			coder->threads[i].state = THR_EXIT;
@@ -543,6 +551,9 @@ threads_end(struct lzma_stream_coder *coder, const lzma_allocator *allocator)
 static void
 threads_stop(struct lzma_stream_coder *coder)
 {
+	if (coder->threads_initialized > 0)
+		VERIF_VISIT(VERIF_D_MT_DEC, VERIF_MTD_THREADS_STOP);
+
 	for (uint32_t i = 0; i < coder->threads_initialized; ++i) {
 		// The threads that are in the THR_RUN state will stop
 		// when they check the state the next time. There's no
@@ -621,6 +632,7 @@ get_thread(struct lzma_stream_coder *coder, const lzma_allocator *allocator)
 		if (coder->threads_free != NULL) {
 			coder->thr = coder->threads_free;
 			coder->threads_free = coder->threads_free->next;
+			VERIF_VISIT(VERIF_D_MT_DEC, VERIF_MTD_WORKER_REUSE);
 
 			// The thread is no longer in the cache so subtract
 			// it from the cached memory usage. Don't add it
@@ -635,6 +647,7 @@ get_thread(struct lzma_stream_coder *coder, const lzma_allocator *allocator)
 		assert(coder->threads_initialized < coder->threads_max);
 
 		// Initialize a new thread.
+		VERIF_VISIT(VERIF_D_MT_DEC, VERIF_MTD_THREAD_START);
 		return_if_error(initialize_new_thread(coder, allocator));
 	}
 
@@ -727,6 +740,7 @@ read_output_and_wait(struct lzma_stream_coder *coder,
 				// been set but that doesn't matter: if we get
 				// here, pending_error only works as a flag.
 				coder->pending_error = LZMA_PROG_ERROR;
+				VERIF_VISIT(VERIF_D_MT_DEC, VERIF_MTD_PENDING_ERROR);
 			}
 
 			// Check if decoding of the next Block can be started.
@@ -828,8 +842,15 @@ read_output_and_wait(struct lzma_stream_coder *coder,
 
 				if (coder->thr->outbuf->decoder_in_pos
 						== coder->thr->in_filled)
+					VERIF_VISIT(VERIF_D_MT_DEC,
+						VERIF_MTD_STALLED_BREAK);
+
+				if (coder->thr->outbuf->decoder_in_pos
+						== coder->thr->in_filled)
 					break;
 			}
+
+			VERIF_VISIT(VERIF_D_MT_DEC, VERIF_MTD_WAIT);
 
 			// Wait for input or output to become possible.
 			if (coder->timeout != 0) {
@@ -850,6 +871,8 @@ read_output_and_wait(struct lzma_stream_coder *coder,
 				if (mythread_cond_timedwait(&coder->cond,
 						&coder->mutex,
 						wait_abs) != 0) {
+					VERIF_VISIT(VERIF_D_MT_DEC,
+						VERIF_MTD_TIMED_OUT);
 					ret = LZMA_TIMED_OUT;
 					break;
 				}
@@ -1022,6 +1045,8 @@ stream_decode_mt(void *coder_ptr, const lzma_allocator *allocator,
 	const bool waiting_allowed = action == LZMA_FINISH
 			|| (*in_pos == in_size && !coder->out_was_filled);
 	coder->out_was_filled = false;
+
+	VERIF_VISIT(VERIF_D_STREAM_MT_SEQ, coder->sequence);
 
 	while (true)
 	switch (coder->sequence) {
@@ -1230,6 +1255,7 @@ stream_decode_mt(void *coder_ptr, const lzma_allocator *allocator,
 			if (!lzma_outq_is_empty(&coder->outq))
 				return LZMA_OK;
 
+			VERIF_VISIT(VERIF_D_MT_DEC, VERIF_MTD_MEMLIMIT_ERROR);
 			return LZMA_MEMLIMIT_ERROR;
 		}
 
@@ -1323,6 +1349,9 @@ stream_decode_mt(void *coder_ptr, const lzma_allocator *allocator,
 				&block_can_start, true,
 				&wait_abs, &has_blocked));
 
+		if (!block_can_start)
+			VERIF_VISIT(VERIF_D_MT_DEC, VERIF_MTD_MEM_WAIT);
+
 		if (coder->pending_error != LZMA_OK) {
 			coder->sequence = SEQ_ERROR;
 			break;
@@ -1409,6 +1438,8 @@ stream_decode_mt(void *coder_ptr, const lzma_allocator *allocator,
 
 			while (thr != NULL) {
 				lzma_next_end(&thr->block_decoder, allocator);
+				VERIF_VISIT(VERIF_D_MT_DEC,
+						VERIF_MTD_CACHE_EVICT);
 				mem_freed += thr->mem_filters;
 				thr->mem_filters = 0;
 				thr = thr->next;
@@ -1613,6 +1644,7 @@ stream_decode_mt(void *coder_ptr, const lzma_allocator *allocator,
 
 		// Make the memory usage visible to _memconfig().
 		coder->mem_direct_mode = coder->mem_next_filters;
+		VERIF_VISIT(VERIF_D_MT_DEC, VERIF_MTD_DIRECT_MODE);
 
 		coder->sequence = SEQ_BLOCK_DIRECT_RUN;
 		FALLTHROUGH;
